@@ -22,6 +22,8 @@ TARGETS = {
     'c300': b'p/' + b'y' * 300 + b'/q',
     'c600': b'/' + b'z' * 600,
     'many': b'/'.join(b'c%d' % i for i in range(90)),
+    'short-27': b'/'.join(b'p%d' % i for i in range(27)),          # fits the record by total size; many two-byte headers
+    'short-45': b'/'.join(b'q%d' % i for i in range(45)),
     'many-long': b'/'.join(bytes([97 + i % 26]) * (20 + i) for i in range(30)),
 }
 
@@ -157,6 +159,10 @@ def sweep(tier):
             for t in TARGETS:
                 for cu in (34, 48, 60):
                     out.append(dict(version=v, name_len=5, curr=cu, tgt=t))
+            for t in ('short-27', 'short-45', 'dots'):
+                for cu in currs:
+                    for n in (3, 30):
+                        out.append(dict(version=v, name_len=n, curr=cu, tgt=t))
             out.append(dict(version=v, name_len=0, curr=34, first=True))
             out.append(dict(version=v, name_len=0, curr=48, first=True, xa=True))
             for rl in ('child', 'relocated', 'parent'):
